@@ -353,7 +353,7 @@ class CGraph:
             # if P != 1:
             #     raise ValueError("x.data.shape[1] must be 1, but provided %d" % x.data.shape[1])
 
-            tmp = numpy.zeros((D,M*P) + x.shape)
+            tmp = numpy.zeros((D,M*P) + x.shape, dtype=_float_type(x.data))
 
             for p in range(P):
                 tmp[:, p*M:(p+1)*M, ...] = x.data[:, p:p+1, ...]
@@ -380,7 +380,7 @@ class CGraph:
 
             M = self.dependentFunctionList[0].size
 
-            tmp = numpy.zeros((1,M) + numpy.shape(x))
+            tmp = numpy.zeros((1,M) + numpy.shape(x), dtype=_float_type(x))
             tmp[0,...] = x
             utpm_x_list = [algopy.UTPM(tmp)]
 
@@ -427,7 +427,7 @@ class CGraph:
 
         N = self.independentFunctionList[0].size
 
-        tmp = numpy.zeros((2,1) + numpy.shape(x))
+        tmp = numpy.zeros((2,1) + numpy.shape(x), dtype=_float_type(x, v))
         tmp[0,...] = x
         tmp[1,0,...] = v
         utpm_x_list = [algopy.UTPM(tmp)]
@@ -466,13 +466,13 @@ class CGraph:
 
         M = self.dependentFunctionList[0].size
 
-        tmp = numpy.zeros((1,1) + numpy.shape(x))
+        tmp = numpy.zeros((1,1) + numpy.shape(x), dtype=_float_type(x, w))
         tmp[0,...] = x
         utpm_x_list = [algopy.UTPM(tmp)]
 
         self.pushforward(utpm_x_list)
 
-        ybar =  algopy.UTPM(numpy.zeros((1,1,M)))
+        ybar =  algopy.UTPM(numpy.zeros((1,1,M), dtype=_float_type(w)))
         ybar.data[0,0,:] = w
         self.pullback([ybar])
 
@@ -540,7 +540,7 @@ class CGraph:
         if x.shape != v.shape:
             raise ValueError("x.shape must be the same as v.shape, but provided x.shape=%s and v.shape=%s"%(x.shape, v.shape))
 
-        xtmp = numpy.zeros((2,1) + numpy.shape(x))
+        xtmp = numpy.zeros((2,1) + numpy.shape(x), dtype=_float_type(x, v))
         xtmp[0,0] = x; xtmp[1,0] = v
         xtmp = algopy.UTPM(xtmp)
 
@@ -631,7 +631,7 @@ class CGraph:
 
         # raise NotImplementedError('this function does not work correctly yet')
 
-        xtmp = numpy.zeros((2,1) + x.shape)
+        xtmp = numpy.zeros((2,1) + x.shape, dtype=_float_type(x, v, w))
         xtmp[0,:] = x; xtmp[1,...] = v
         xtmp = algopy.UTPM(xtmp)
 
@@ -721,6 +721,12 @@ class CGraph:
 
         g.layout(method)
         g.render(filename, format=extension)
+
+
+def _float_type(*arrays):
+    """ the floating point type of the work arrays of the drivers: the common type of the point and
+    the vectors given (complex points and directions are not truncated to their real part) """
+    return numpy.result_type(float, *[numpy.asarray(a).dtype for a in arrays])
 
 
 def _freeze(a):
